@@ -220,9 +220,29 @@ class WireView:
         prev_snap = {}
         other_error = False      # a GOAWAY from the peer / a connection-level failure may reach the stream first (first error wins)
         tainted = set()
+        must_rst = {}            # sid -> (step, code): explicit reset of a stream not yet closed on the wire
+        head_out, eos_written, eos_fed = set(), set(), set()
+        conn_over = False
         for st in self.sc["trace"]:
             op, res = st["op"], st["res"]
             o = op.get("op")
+            if o in ("eof", "read_fail", "drop_conn", "abrupt_shutdown", "graceful_shutdown") or (o == "write_mode" and op.get("mode") in ("fail",)):
+                conn_over = True
+            if o in ("conn_poll", "poll_accept") and isinstance(res, str) and (res.startswith("E(") or res.startswith("Ready")):
+                conn_over = True
+            if o == "peer" and isinstance(op.get("what"), dict):
+                w0 = op["what"]
+                if w0.get("t") in ("HEADERS", "DATA") and w0.get("eos"):
+                    eos_fed.add(w0.get("sid"))
+                if w0.get("t") == "GOAWAY" or "chaos" in w0:
+                    conn_over = True
+            for f0 in st["out"]:
+                if f0["t"] in ("HEADERS", "PUSH_PROMISE"):
+                    head_out.add(f0["sid"] if f0["t"] == "HEADERS" else f0.get("promised"))
+                if f0["t"] in ("HEADERS", "DATA") and f0.get("eos"):
+                    eos_written.add(f0["sid"])
+                if f0["t"] == "GOAWAY":
+                    conn_over = True
             if o in ("eof", "read_fail", "drop_conn", "abrupt_shutdown") or (o == "write_mode" and op.get("mode") in ("fail", "zero")):
                 other_error = True
             if o in ("conn_poll", "poll_accept") and isinstance(res, str) and res.startswith("E("):
@@ -233,6 +253,11 @@ class WireView:
                 handles[res["h"]] = res["sid"]
             if o in ("send_reset", "respond_reset") and res == "ok":
                 sid = handles.get(op.get("h"))
+                # wire view at the moment of the call: a stream whose two END_STREAMs are not both on the wire yet has
+                # not "closed cleanly" - the reset must reach the wire (checked at the end of a settled run)
+                if sid is not None and sid in head_out and sid not in out_rst and sid not in peer_rst \
+                        and not (sid in eos_written and sid in eos_fed) and sid not in must_rst:
+                    must_rst[sid] = (st["i"], op.get("code", 8))
                 # the library may already have reset the stream (peer violation): then the call is a no-op
                 already = any(e[0] == "send.send_reset" and len(e) > 12 and e[12] == 1 for e in st.get("ev", []))
                 live = any(e[0] == "send.send_reset" for e in st.get("ev", []))
@@ -271,6 +296,13 @@ class WireView:
                     out_rst.setdefault(f["sid"], []).append((st["i"], f.get("code")))
             if "snap" in st:
                 prev_snap = st["snap"]
+        if self.sc.get("settled") and not conn_over:
+            for sid, (step, code) in must_rst.items():
+                # a final frame that had already been handed to the codec when the call was made still goes out and ends the
+                # stream cleanly: then no RST_STREAM is owed
+                if sid not in out_rst and sid not in peer_rst and not (sid in eos_written and sid in eos_fed):
+                    v.append({"step": step, "why": "send_reset on a stream that had not closed cleanly on the wire put no RST_STREAM on the wire (and the stream never ended cleanly either)",
+                              "sid": sid, "api_code": code, "end_stream_written": sid in eos_written, "end_stream_received": sid in eos_fed})
         for sid, lst in out_rst.items():
             # replies to late peer frames on a stream already reset are allowed: one per offending frame
             # every peer frame on the stream may legitimately be answered by one more RST_STREAM (late frames)
@@ -408,10 +440,12 @@ def reaction_oracle(sc):
 
 
 def tolerance_oracle(sc):
-    """Legal traffic is never penalised: in a run whose scripted peer stays strictly within the protocol (profile `legal`) the
+    """Legal traffic is never penalised: in a run whose scripted peer stays strictly within the protocol (profiles `legal`, and
+    `race`: legal plus the races the RFC tolerates - frames in flight for a stream the endpoint has just reset or refused, the
+    endpoint's concurrency limit binding the peer only from the peer's SETTINGS acknowledgement) the
     endpoint writes no GOAWAY with an error code and no RST_STREAM with a protocol-violation code (PROTOCOL_ERROR,
     FLOW_CONTROL_ERROR, STREAM_CLOSED, FRAME_SIZE_ERROR, COMPRESSION_ERROR) unless the application asked for that code."""
-    if sc.get("profile") != "legal":
+    if sc.get("profile") not in ("legal", "race"):
         return None
     asked = set()
     rst_before = set()
